@@ -160,8 +160,8 @@ def codec(ctx: Ctx, rule="R-C07-CODEC") -> None:
         ctx.check(popped <= allowed and not (popped & own), rule, dec, f"{c.name}.decode drops only foreign keys", f"dropped: {sorted(popped)}",
                   f"{c.name}.decode drops {sorted(popped)} (allowed: {sorted(allowed)}): an enqueued setting would be lost", instance=f"{c.name}: dropped keys")
         # None values are passed through
-        ld = [x for x in ast.walk(dec.node) if isinstance(x, ast.Call) and dotted(x.func) == "json.loads"]
-        ctx.check(len(ld) == 1, rule, dec, f"{c.name}.decode parses JSON", "json.loads", f"{c.name}.decode does not json.loads its input", instance=f"{c.name}: loads")
+        ld = [x for _, x in C.flat_walk(ctx, dec) if isinstance(x, ast.Call) and dotted(x.func) == "json.loads"]
+        ctx.check(len(ld) >= 1, rule, dec, f"{c.name}.decode parses JSON", "json.loads", f"{c.name}.decode does not json.loads its input", instance=f"{c.name}: loads")
     ctx.floor(rule, n, 6, "serialisable dataclasses")
 
 
@@ -179,7 +179,7 @@ def mapping(ctx: Ctx, rule="R-C07-MAP") -> None:
     ok = isinstance(idv, ast.BoolOp) and isinstance(idv.op, ast.Or) and dotted(idv.values[0]) == "self.id_" and isinstance(idv.values[1], ast.Attribute) and "uuid4" in unparse(idv.values[1])
     ctx.check(ok, rule, f, "routing key id_ <- self.id_ or a fresh uuid", "given id kept", f"Job routing key id_={unparse(idv) if idv is not None else '<default>'}", node=rk[0], instance="routing key id_")
     f = ctx.func("repid.job.Job._construct_parameters")
-    pc = [c for c in ast.walk(f.node) if isinstance(c, ast.Call) and dotted(c.func) == "self._conn.message_broker.PARAMETERS_CLASS"]
+    pc = [c for c in ast.walk(f.node) if isinstance(c, ast.Call) and C.utext(f, c.func) == "self._conn.message_broker.PARAMETERS_CLASS"]
     ctx.require(len(pc) == 1, f"{f.qualname}: PARAMETERS_CLASS(...) not found")
     kw = {k.arg: k.value for k in pc[0].keywords}
     simple = {"execution_timeout": "self.timeout", "timestamp": "self.timestamp", "ttl": "self.ttl"}
@@ -189,7 +189,7 @@ def mapping(ctx: Ctx, rule="R-C07-MAP") -> None:
     nested = {"retries": ("RETRIES_CLASS", {"max_amount": "self.retries"}), "delay": ("DELAY_CLASS", {"delay_until": "self.deferred_until", "defer_by": "self.deferred_by", "cron": "self.cron"}),
               "result": ("RESULT_CLASS", {"id_": "self.result_id", "ttl": "self.result_ttl"})}
     for k, (cls_attr, m) in nested.items():
-        v = kw.get(k)
+        v = C.inline_locals(f, kw.get(k), calls="all") if kw.get(k) is not None else None
         calls = [c for c in ast.walk(v) if isinstance(c, ast.Call) and isinstance(c.func, ast.Attribute) and c.func.attr == cls_attr] if v is not None else []
         if not ctx.check(len(calls) == 1, rule, f, f"parameters {k} built with {cls_attr}", cls_attr, f"Job parameters {k} is {unparse(v)[:60] if v is not None else '<default>'}", node=pc[0],
                          instance=f"parameters {k} class"):
@@ -275,19 +275,23 @@ def wire(ctx: Ctx, rule="R-C07-WIRE") -> None:
             tgt = n.targets[0] if isinstance(n, ast.Assign) else n.target
             c = n.value.value
             hg[dotted(tgt)] = (unparse(c.args[0]), c.args[1].value if isinstance(c.args[1], ast.Constant) else None)
-    ok = unparse(p_) == "payload.decode()" and hg.get("payload") == ("mnc(routing_key)", "payload")
+    tp, tpr = C.utext(d, p_, calls="all", awaits=True), C.utext(d, pr_, calls="all", awaits=True)
+    ok = tp.endswith(".decode()") and ("hget(mnc(routing_key), 'payload')" in tp or ("hget(mnc(self.broker.ROUTING_KEY_CLASS(" in tp and "'payload')" in tp))
     ctx.check(ok, rule, d, "redis consumer payload <- hash field 'payload' of the message's own hash", "payload.decode()", f"redis consumer returns payload {unparse(p_)} read via {hg.get('payload')}",
               instance="redis payload read")
-    ok = unparse(pr_) == "self.broker.PARAMETERS_CLASS.decode(parameters.decode())" and hg.get("parameters") == ("mnc(routing_key)", "parameters")
+    ok = tpr.startswith("self.broker.PARAMETERS_CLASS.decode(") and ("hget(mnc(routing_key), 'parameters')" in tpr or ("hget(mnc(self.broker.ROUTING_KEY_CLASS(" in tpr and "'parameters')" in tpr)) and tpr.endswith(".decode())")
     ctx.check(ok, rule, d, "redis consumer parameters <- decode(hash field 'parameters')", "PARAMETERS_CLASS.decode", f"redis consumer returns parameters {unparse(pr_)[:70]} read via {hg.get('parameters')}",
               instance="redis parameters read")
     rk = [c for c in ast.walk(d.node) if isinstance(c, ast.Call) and isinstance(c.func, ast.Attribute) and c.func.attr == "ROUTING_KEY_CLASS"]
     ctx.require(len(rk) == 1, f"{d.qualname}: ROUTING_KEY_CLASS(...) not found")
     kw = {k.arg: unparse(k.value) for k in rk[0].keywords}
-    ctx.check(kw == {"id_": "id_", "topic": "topic", "queue": "self.queue_name", "priority": "priority.value"}, rule, d, "redis consumer rebuilds the routing key from name parts, queue and priority",
+    un0 = [n for n in ast.walk(d.node) if isinstance(n, ast.Assign) and isinstance(n.value, ast.Call) and dotted(n.value.func) == "parse_short_message_name" and isinstance(n.targets[0], ast.Tuple)]
+    tnames = [dotted(e) for e in un0[0].targets[0].elts] if un0 else ["?", "?"]
+    prio_param = [p.arg for p in d.params()][2]
+    ctx.check(kw == {"id_": tnames[1], "topic": tnames[0], "queue": "self.queue_name", "priority": f"{prio_param}.value"}, rule, d, "redis consumer rebuilds the routing key from name parts, queue and priority",
               str(kw), f"redis consumer builds the routing key as {kw}", node=rk[0], instance="redis routing key rebuilt")
     un = [n for n in ast.walk(d.node) if isinstance(n, ast.Assign) and isinstance(n.value, ast.Call) and dotted(n.value.func) == "parse_short_message_name"]
-    ok = len(un) == 1 and isinstance(un[0].targets[0], ast.Tuple) and [dotted(e) for e in un[0].targets[0].elts] == ["topic", "id_"]
+    ok = len(un) == 1 and isinstance(un[0].targets[0], ast.Tuple) and len(un[0].targets[0].elts) == 2
     ctx.check(ok, rule, d, "topic, id_ = parse_short_message_name(...)", "order of the short name", "redis consumer unpacks the short message name in another order than mnc writes it", instance="redis short name order")
     # ---------- rabbitmq
     e = ctx.func(f"{C.RABBIT_BROKER}.enqueue")
@@ -456,18 +460,17 @@ def alphabet(ctx: Ctx, rule="R-C07-ALPHABET") -> None:
     mnc = u.functions["mnc"]
     qnc = u.functions["qnc"]
 
-    def fparts(fn, which):
-        outs = []
-        for r in ast.walk(fn.node):
-            if isinstance(r, ast.Return) and isinstance(r.value, ast.JoinedStr):
-                txt = "".join(v.value if isinstance(v, ast.Constant) else "{}" for v in r.value.values)
-                outs.append(txt)
-        return outs
-
-    pre = [v for n in ast.walk(mnc.node) if isinstance(n, ast.Assign) and isinstance(n.value, ast.JoinedStr) for v in ["".join(x.value if isinstance(x, ast.Constant) else "{}" for x in n.value.values)]]
-    short = fparts(mnc, "short")
-    ctx.check(pre == ["m:{}:{}:"] and short == ["{}{}:{}"], rule, mnc, "mnc = m:<queue>:<priority>:<topic>:<id>", "5 parts full / 2 parts short", f"mnc builds {pre} + {short}", instance="mnc shape")
-    ctx.check(sorted(fparts(qnc, "")) == sorted(["q:{}:{}:dead", "q:{}:{}:{}"]), rule, qnc, "qnc = q:<queue>:<priority>:<marker>", "4 parts", f"qnc builds {fparts(qnc, '')}", instance="qnc shape")
+    mt = set()
+    for v in C.returned_values(mnc):
+        mt |= C.fstring_templates(mnc, v)
+    ctx.check(mt == {"{}:{}", "m:{}:{}:{}:{}"}, rule, mnc, "mnc = m:<queue>:<priority>:<topic>:<id> (short: <topic>:<id>)", "5 parts full / 2 parts short", f"mnc builds {sorted(mt)}", instance="mnc shape")
+    rv = [C.inline_locals(mnc, v) for v in C.returned_values(mnc)]
+    holes = sorted({unparse(x.value) for v in rv for x in ast.walk(v) if isinstance(x, ast.FormattedValue)} | {unparse(x.value) for n in ast.walk(mnc.node) if isinstance(n, ast.JoinedStr) for x in n.values if isinstance(x, ast.FormattedValue)})
+    ctx.check(set(holes) - {"prefix"} == {"key.queue", "key.priority", "key.topic", "key.id_"}, rule, mnc, "mnc is built from queue, priority, topic and id of the key", str(holes), f"mnc is built from {holes}", instance="mnc fields")
+    qt = set()
+    for v in C.returned_values(qnc):
+        qt |= C.fstring_templates(qnc, v)
+    ctx.check(qt == {"q:{}:{}:dead", "q:{}:{}:d", "q:{}:{}:n"}, rule, qnc, "qnc = q:<queue>:<priority>:<n|d|dead>", "4 parts", f"qnc builds {sorted(qt)}", instance="qnc shape")
     expect = {"full_message_name_from_short": 4, "parse_short_message_name": 2, "parse_message_name": 5}
     for fname, nparts in expect.items():
         fn = u.functions.get(fname)
@@ -479,9 +482,18 @@ def alphabet(ctx: Ctx, rule="R-C07-ALPHABET") -> None:
     pm = u.functions["parse_message_name"]
     sp = [n for n in ast.walk(pm.node) if isinstance(n, ast.Assign) and isinstance(n.targets[0], ast.Tuple)][0]
     ret = [r for r in ast.walk(pm.node) if isinstance(r, ast.Return)][0]
-    ok = [dotted(e) for e in sp.targets[0].elts] == ["_", "queue", "priority", "topic", "id_"] and unparse(ret.value) == "(id_, topic, queue, int(priority))"
-    ctx.check(ok, rule, pm, "parse_message_name field order = mnc field order", "_, queue, priority, topic, id_", f"parse_message_name unpacks {unparse(sp.targets[0])} and returns {unparse(ret.value)}",
-              instance="parse_message_name order")
+    tn = [dotted(e) for e in sp.targets[0].elts]
+    rt = ret.value.elts if isinstance(ret.value, ast.Tuple) else []
+    ok = len(tn) == 5 and len(rt) == 4 and [dotted(rt[0]), dotted(rt[1]), dotted(rt[2])] == [tn[4], tn[3], tn[1]] and unparse(rt[3]) == f"int({tn[2]})"
+    ctx.check(ok, rule, pm, "parse_message_name field order = mnc field order", "(parts[4], parts[3], parts[1], int(parts[2])) = (id, topic, queue, priority)",
+              f"parse_message_name unpacks {unparse(sp.targets[0])} and returns {unparse(ret.value)}", instance="parse_message_name order")
+    fm = u.functions["full_message_name_from_short"]
+    sp = [n for n in ast.walk(fm.node) if isinstance(n, ast.Assign) and isinstance(n.targets[0], ast.Tuple)][0]
+    tn = [dotted(e) for e in sp.targets[0].elts]
+    ret = [r for r in ast.walk(fm.node) if isinstance(r, ast.Return)][0]
+    hs = [unparse(x.value) for x in ret.value.values if isinstance(x, ast.FormattedValue)] if isinstance(ret.value, ast.JoinedStr) else []
+    ok = len(tn) == 4 and hs == [tn[1], tn[2], [p.arg for p in fm.params()][0]] and C.fstring_templates(fm, ret.value) == {"m:{}:{}:{}"}
+    ctx.check(ok, rule, fm, "full_message_name_from_short = m:<queue part>:<priority part>:<short name>", "same shape as mnc", f"full_message_name_from_short returns {unparse(ret.value)}", instance="full name from short")
     gm = u.functions["get_queue_marker"]
     ret = [r for r in ast.walk(gm.node) if isinstance(r, ast.Return)][0]
     ctx.check(unparse(ret.value) == "full_queue_name.split(':')[-1]", rule, gm, "queue marker = last part of the queue name", "split(':')[-1]", f"get_queue_marker returns {unparse(ret.value)}", instance="queue marker")
@@ -548,9 +560,40 @@ def marker(ctx: Ctx, rule="R-C07-MARKER") -> None:
     bk = [n for n in ast.walk(ca.node) if isinstance(n, ast.Call) and isinstance(n.func, ast.Attribute) and n.func.attr == "BUCKET_CLASS"]
     ok = len(bk) == 1 and {k.arg: unparse(k.value) for k in bk[0].keywords} == {"data": "self.args", "ttl": "self.args_ttl"}
     ctx.check(ok, rule, ca, "bucket carries the serialised arguments and args_ttl", "BUCKET_CLASS(data=self.args, ttl=self.args_ttl)", f"argument bucket is {unparse(bk[0]) if bk else '?'}", instance="args bucket content")
-    rets = [r for r in ast.walk(ca.node) if isinstance(r, ast.Return)]
-    mk = [r for r in rets if unparse(r.value) == "_ArgsBucketInMessageId.construct(self.args_id)"]
-    ctx.check(len(mk) == 2 and len(rets) == 3, rule, ca, "marker built from the same args_id", "construct(self.args_id)", f"Job._construct_args returns {[unparse(r.value) for r in rets]}", instance="marker id")
+    vals = sorted({C.utext(ca, v) for v in C.returned_values(ca)})
+    ctx.check(vals == sorted(["_ArgsBucketInMessageId.construct(self.args_id)", "self.args or ''"]), rule, ca, "marker built from the same args_id, else the inline arguments",
+              "construct(self.args_id) | self.args or ''", f"Job._construct_args returns {vals}", instance="marker id")
+    g_ca = ctx.cfg(ca)
+
+    def ca_env(bucketer, has_args, id_set):
+        def fn(text, node):
+            d = dotted(node)
+            if d == "self.use_args_bucketer":
+                return bucketer
+            if d == "self.args_id_set":
+                return id_set
+            if isinstance(node, ast.Compare) and isinstance(node.ops[0], ast.Is) and dotted(node.left) == "self.args" and C.is_const(node.comparators[0], None):
+                return not has_args
+            return None
+        return {"*ca": fn}
+
+    for (bu, ha, ids), want_marker, want_store in (((True, True, False), True, True), ((False, True, True), True, False), ((True, False, True), True, False),
+                                                  ((False, True, False), False, False), ((True, False, False), False, False)):
+        r_ = flow.reach_under(g_ca, ca_env(bu, ha, ids), flow.NORMAL_KINDS)
+        stored = any(n.id in r_ for n in g_ca.calls() if isinstance(n.ast.func, ast.Attribute) and n.ast.func.attr == "store_bucket")
+        rv = set()
+        for n in g_ca.nodes:
+            if n.kind == "return" and n.id in r_:
+                v = n.ast.value
+                if isinstance(v, ast.Name) and len(C.local_defs(ca, v.id)) > 1:
+                    rv |= {C.utext(ca, s_.meta.get("value")) for s_ in g_ca.nodes if s_.kind == "store" and s_.target == v.id and s_.id in r_}
+                else:
+                    rv.add(C.utext(ca, v))
+        is_marker = rv == {"_ArgsBucketInMessageId.construct(self.args_id)"}
+        is_inline = rv == {"self.args or ''"}
+        ctx.check((is_marker if want_marker else is_inline) and stored == want_store, rule, ca, f"_construct_args[bucketer={bu}, args={'set' if ha else 'None'}, args_id given={ids}]",
+                  f"-> {'bucket marker' if want_marker else 'inline arguments'}{', bucket stored' if want_store else ''}",
+                  f"Job._construct_args with bucketer={bu}, args {'set' if ha else 'None'}, args_id given={ids} returns {sorted(rv)} (bucket stored: {stored})", instance=f"construct_args[{bu},{ha},{ids}]")
     init = ctx.func("repid.job.Job.__init__")
     st = [n for n in ast.walk(init.node) if isinstance(n, ast.Assign) and any(dotted(t) == "self.args" for t in n.targets)]
     ok = len(st) == 1 and unparse(st[0].value) == "None if args is None else Config.SERIALIZER(args)"
